@@ -258,6 +258,12 @@ func c07Names() (all []string, generic []string) {
 	for _, n := range []string{"k", "X-Long-Header-Name", "Cantact", "Vib", "frob", "E", "x!%*_+`'~-."} {
 		addn(n)
 	}
+	// every one-byte token name (compact forms are one byte: all the others must classify as generic)
+	for b := byte(33); b < 127; b++ {
+		if b != ':' {
+			addn(string([]byte{b}))
+		}
+	}
 	return
 }
 
